@@ -37,6 +37,7 @@ package poseidon
 //@ def sp_poseidon(s) = sp_full_rounds(sp_partial_rounds(sp_full_rounds(s, 0)), 26)
 
 //@ func (c *GoldilocksChip) sBoxMonomial(x gl.Variable) (res gl.Variable)
+//@   locals x2 x3 x6 x7
 //@   props C05 C09
 //@   circuit
 //@   requires chipok(c.Gl) && canon(x)
@@ -46,6 +47,7 @@ package poseidon
 //@   ensures res.Limb == pow7(x.Limb)
 
 //@ func (c *GoldilocksChip) constantLayer(state GoldilocksState, roundCounter *int) (res GoldilocksState)
+//@   locals i roundConstant
 //@   props C05 C09
 //@   circuit
 //@   requires chipok(c.Gl) && canonState(state) && 0 <= *roundCounter && *roundCounter < 30
@@ -55,6 +57,7 @@ package poseidon
 //@   ensures res == sp_const(state, *roundCounter)
 
 //@ func (c *GoldilocksChip) sBoxLayer(state GoldilocksState) (res GoldilocksState)
+//@   locals i
 //@   props C05 C09
 //@   circuit
 //@   requires chipok(c.Gl) && canonState(state)
@@ -62,6 +65,7 @@ package poseidon
 //@   ensures res == sp_sbox(state)
 
 //@ func (c *GoldilocksChip) mdsRowShf(r int, v GoldilocksState) (res gl.Variable)
+//@   locals res i
 //@   props C05 C09
 //@   circuit
 //@   requires chipok(c.Gl) && canonState(v) && 0 <= r && r < 12
@@ -71,6 +75,7 @@ package poseidon
 //@   ensures res.Limb == sp_mds_row(v, r)
 
 //@ func (c *GoldilocksChip) mdsLayer(state_ GoldilocksState) (res GoldilocksState)
+//@   locals result i r
 //@   props C05 C09
 //@   circuit
 //@   requires chipok(c.Gl) && canonState(state_)
@@ -78,6 +83,7 @@ package poseidon
 //@   ensures res == sp_mds(state_)
 
 //@ func (c *GoldilocksChip) partialFirstConstantLayer(state GoldilocksState) (res GoldilocksState)
+//@   locals i
 //@   props C05 C09
 //@   circuit
 //@   requires chipok(c.Gl) && canonState(state)
@@ -86,6 +92,7 @@ package poseidon
 //@   ensures res == sp_pfirst(state)
 
 //@ func (c *GoldilocksChip) mdsPartialLayerInit(state GoldilocksState) (res GoldilocksState)
+//@   locals result i r d t i
 //@   props C05 C09
 //@   circuit
 //@   requires chipok(c.Gl) && canonState(state)
@@ -94,6 +101,7 @@ package poseidon
 //@   ensures res == sp_pinit(state)
 
 //@ func (c *GoldilocksChip) mdsPartialLayerFast(state GoldilocksState, r int) (res GoldilocksState)
+//@   locals dSum i t d result i i t i
 //@   props C05 C09
 //@   circuit
 //@   requires chipok(c.Gl) && canonState(state) && 0 <= r && r < 22
@@ -103,6 +111,7 @@ package poseidon
 //@   ensures res == sp_pfast(state, r)
 
 //@ func (c *GoldilocksChip) Poseidon(input GoldilocksState) (res GoldilocksState)
+//@   locals state roundCounter
 //@   props C05 C09
 //@   circuit
 //@   requires chipok(c.Gl) && canonState(input)
@@ -135,6 +144,7 @@ package poseidon
 //@ def bn_pt(s) = tuple(bn_p0(s[0], s[1], s[2], s[3]), bn_p1(s[0], s[1], s[2], s[3]), bn_p2(s[0], s[1], s[2], s[3]), bn_p3(s[0], s[1], s[2], s[3]))
 
 //@ func (c *BN254Chip) exp5(x frontend.Variable) (res frontend.Variable)
+//@   locals x2 x4
 //@   props C10
 //@   circuit
 //@   reveal bn_exp5
@@ -148,6 +158,7 @@ package poseidon
 //@   ensures res == bn_pt(state)
 
 //@ func (c *BN254Chip) TwoToOne(left BN254HashOut, right BN254HashOut) (res BN254HashOut)
+//@   locals inputs state
 //@   props C10
 //@   circuit
 //@   ensures res == bn_p0(0, 0, left, right)
@@ -162,6 +173,7 @@ package poseidon
 //@ def canonSeq(s) = forall(k, 0, len(s), canon(s[k]))
 
 //@ func (c *BN254Chip) HashNoPad(input []gl.Variable) (res BN254HashOut)
+//@   locals state two_to_32 two_to_64 i endI rateChunk j stateIdx endJ bn254Chunk inter k
 //@   props C10
 //@   circuit
 //@   requires canonSeq(input)
@@ -169,6 +181,7 @@ package poseidon
 //@   loop 0 invariant 0 <= i && i % 9 == 0 && i <= len(input) + 8 && bn_sponge(input, state, i)[0] == bn_hash_no_pad(input)
 
 //@ func (c *BN254Chip) HashOrNoop(input []gl.Variable) (res BN254HashOut)
+//@   locals returnVal alpha i inputElement mulFactor
 //@   props C10
 //@   circuit
 //@   requires canonSeq(input)
@@ -177,6 +190,7 @@ package poseidon
 // Hash -> Goldilocks elements: five little-endian 56-bit chunks of the canonical value (7-byte chunks in the
 // reference to_vec); the decomposition is exact, hence injective.
 //@ func (c *BN254Chip) ToVec(hash BN254HashOut) (res []gl.Variable)
+//@   locals bits returnElements chunkSize i maxIdx bitChunk
 //@   props C10
 //@   circuit
 //@   ensures len(res) == 5
@@ -207,12 +221,14 @@ package poseidon
 //@ def pos_out(inp, k) = pos_iter(pos_absorbed(inp), k / 8)[k % 8]
 
 //@ func (c *GoldilocksChip) Poseidon(input GoldilocksState) (res GoldilocksState)
+//@   locals state roundCounter
 //@   props C09
 //@   circuit
 //@   reveal pos_pk
 //@   ensures res == pos_pt(input)
 
 //@ func (c *GoldilocksChip) HashNToMNoPad(input []gl.Variable, nbOutputs int) (res []gl.Variable)
+//@   locals state i i j outputs i
 //@   props C05 C09
 //@   circuit
 //@   requires chipok(c.Gl) && canonSeq(input) && 1 <= nbOutputs
@@ -224,6 +240,7 @@ package poseidon
 //@        forall(k, 0, len(outputs), outputs[k].Limb == pos_out(input, k))
 
 //@ func (c *GoldilocksChip) HashNoPad(input []gl.Variable) (res GoldilocksHashOut)
+//@   locals hash inputVars i outputVars i
 //@   props C05 C09
 //@   circuit
 //@   requires chipok(c.Gl)
@@ -265,6 +282,7 @@ package poseidon
 //@ def spe_pfast(s, r) = mktuple(12, i, ite(i == 0, spe_pfast_d(s, r), qe_addo(qe_mulo(s[0], qe_c(poseidon.FAST_PARTIAL_ROUND_VS[r][ite(i == 0, 0, i - 1)])), s[i])))
 
 //@ func (c *GoldilocksChip) ConstantLayerExtension(state GoldilocksStateExtension, roundCounter *int) (res GoldilocksStateExtension)
+//@   locals i roundConstant roundConstantQE
 //@   props C15 C05
 //@   circuit
 //@   requires chipok(c.Gl) && canonStateE(state) && 0 <= *roundCounter && *roundCounter < 30
@@ -272,18 +290,21 @@ package poseidon
 //@   ensures res == spe_const(state, *roundCounter)
 
 //@ func (c *GoldilocksChip) SBoxMonomialExtension(x gl.QuadraticExtensionVariable) (res gl.QuadraticExtensionVariable)
+//@   locals x2 x4 x3
 //@   props C15 C05
 //@   circuit
 //@   requires chipok(c.Gl) && canonQE(x)
 //@   ensures canonQE(res) && res == qe_pow7(x)
 
 //@ func (c *GoldilocksChip) SBoxLayerExtension(state GoldilocksStateExtension) (res GoldilocksStateExtension)
+//@   locals i
 //@   props C15 C05
 //@   circuit
 //@   requires chipok(c.Gl) && canonStateE(state)
 //@   ensures canonStateE(res) && res == spe_sbox(state)
 
 //@ func (c *GoldilocksChip) MdsRowShfExtension(r int, v GoldilocksStateExtension) (res gl.QuadraticExtensionVariable)
+//@   locals res i matrixVal matrixValQE res1 matrixVal matrixValQE
 //@   props C15 C05
 //@   circuit
 //@   requires chipok(c.Gl) && canonStateE(v) && 0 <= r && r < 12
@@ -291,24 +312,28 @@ package poseidon
 //@   ensures canonQE(res) && res == spe_mds_row(v, r)
 
 //@ func (c *GoldilocksChip) MdsLayerExtension(state_ GoldilocksStateExtension) (res GoldilocksStateExtension)
+//@   locals result r sum
 //@   props C15 C05
 //@   circuit
 //@   requires chipok(c.Gl) && canonStateE(state_)
 //@   ensures canonStateE(res) && res == spe_mds(state_)
 
 //@ func (c *GoldilocksChip) PartialFirstConstantLayerExtension(state GoldilocksStateExtension) (res GoldilocksStateExtension)
+//@   locals i fastPartialRoundConstant fastPartialRoundConstantQE
 //@   props C15 C05
 //@   circuit
 //@   requires chipok(c.Gl) && canonStateE(state)
 //@   ensures canonStateE(res) && res == spe_pfirst(state)
 
 //@ func (c *GoldilocksChip) MdsPartialLayerInitExtension(state GoldilocksStateExtension) (res GoldilocksStateExtension)
+//@   locals result i r d t tQE
 //@   props C15 C05
 //@   circuit
 //@   requires chipok(c.Gl) && canonStateE(state)
 //@   ensures canonStateE(res) && res == spe_pinit(state)
 
 //@ func (c *GoldilocksChip) MdsPartialLayerFastExtension(state GoldilocksStateExtension, r int) (res GoldilocksStateExtension)
+//@   locals s0 mds0to0 mds0to0QE d i t tQE result i t tQE
 //@   props C15 C05
 //@   circuit
 //@   requires chipok(c.Gl) && canonStateE(state) && 0 <= r && r < 22
